@@ -11,7 +11,7 @@ from vlib import content as C
 
 from . import corecommon as cc
 
-PROPS = ["MxlVerif.Props.C02"]
+PROPS = ["MxlVerif.Props.C02", "MxlVerif.Props.C01Tie"]
 QUERIES = [["init"], ["args", None, "0"]]
 
 
